@@ -99,7 +99,7 @@ def _call(mon, case, which, ref, hyp, **over):
 
     ins, dl, sub = G.costs_as_given(case)
     kw = dict(eos=case["eos"], include_eos=case["include_eos"], norm=case["norm"],
-              batch_first=case["batch_first"], ins_cost=ins, del_cost=dl, sub_cost=sub, warn=False)
+              batch_first=case["batch_first"], ins_cost=ins, del_cost=dl, sub_cost=sub, warn=G.warn_flag(case))
     if which == "prefix_edit_distances":
         kw.update(padding=case["padding"], exclude_last=case["exclude_last"])
     kw.update(over)
